@@ -632,6 +632,20 @@ def eval_lh(case, acc=None):
         if lc is None:
             return viol
         got = _judge_derived(site + "/" + loc, lc, _lh_expected(form, classes, loc), counts, s.index, viol, case)
+        if loc == "mid" and not viol:
+            # ONE kept accessor object asked for every derived quantity, re-located, asked again (mid, right, left, right)
+            kept = _call(site + "/kept-accessor", lambda: s.load_collective, viol, case)
+            for l in ("mid", "right", "left", "right"):
+                if kept is None or viol:
+                    break
+                if l != "mid":
+                    moved = _call(site + "/kept-accessor", (kept.use_class_right if l == "right" else kept.use_class_left), viol, case)
+                    kept = moved if moved is not None else None
+                    if kept is None:
+                        break
+                _judge_derived(site + "/kept-accessor-relocated/" + l, kept, _lh_expected(form, classes, l), counts, s.index, viol, case)
+                if acc is not None:
+                    acc.evaluations += 1
     else:
         neg = (isinstance(op, dict) and any(v < 0 for v in op.values())) or (not isinstance(op, dict) and op < 0)
         site = ("LoadHistogram.scale/negative-factor" if neg and what == "scale" else
@@ -729,6 +743,17 @@ def eval_rebin2d(case, acc=None):
             acc.count("rebin target does not cover the histogram (outside the property; executed, not judged)")
     elif not _close(float(r.sum()), total):
         viol.append(("C14/%s/total-not-conserved" % site, case, {"source_total": total, "rebinned_total": float(r.sum())}))
+    if tgt["t"] == "mi":
+        # the target binning names its levels: listing them in the other order asks for the same histogram
+        swapped = _bins(tgt).reorder_levels(["b", "a"])
+        r2 = _call(site + "/target-levels-in-other-order", lambda: rebin_histogram(h, swapped), viol, case)
+        if acc is not None:
+            acc.evaluations += 1
+        if r2 is not None:
+            same = _call(site + "/target-levels-in-other-order", lambda: r2.reorder_levels(list(r.index.names)).reindex(r.index), viol, case)
+            if same is not None and not _close(same.to_numpy(), r.to_numpy()):
+                viol.append(("C14/%s/target-levels-in-other-order" % site, case,
+                             {"levels_a_b": r.to_numpy(), "levels_b_a": same.to_numpy(), "total": total}))
     if tgt["t"] == "mi" and tgt["x"] == REBIN2D_SRC["x"] and tgt["y"] == REBIN2D_SRC["y"]:
         back = _call(site, lambda: r.reorder_levels(["a", "b"]).reindex(h.index), viol, case)
         if back is not None and not _close(back.to_numpy(), h.to_numpy()):
